@@ -130,8 +130,12 @@ func doSend(conn *gws.Conn, tap *memConn, op sendOp) (obs sendObs) {
 			}
 		}()
 		switch op.API {
-		case "message", "ping", "pong":
+		case "message":
 			err = conn.WriteMessage(gws.Opcode(op.Opcode), joinSlices(op.Slices))
+		case "ping":
+			err = conn.WritePing(joinSlices(op.Slices))
+		case "pong":
+			err = conn.WritePong(joinSlices(op.Slices))
 		case "string":
 			err = conn.WriteString(string(joinSlices(op.Slices)))
 		case "writev":
